@@ -9,6 +9,7 @@ package main
 //   int   (internal tie, overlay export) buildOpenArgs itself on arbitrary strings.
 //   std   real drivers with the standard (crypto/ssh) transport against an in-process SSH server
 //         with a fresh host key: Open outcome, credentials the server was offered, user.
+//   hist  several std connections in one process through one known-hosts path rewritten in between.
 //   real  real drivers with the system transport and the real ssh binary against that server.
 
 import (
@@ -733,9 +734,11 @@ const (
 	khMalformed
 	khAbsent
 	khKinds
+	// khMissing: a path is configured but no file is there when the connection is opened (histories only)
+	khMissing khKind = khKinds
 )
 
-var khNames = []string{"match", "match-hashed", "match-among-others", "mismatch", "empty", "other-port", "revoked", "malformed", "absent"}
+var khNames = []string{"match", "match-hashed", "match-among-others", "mismatch", "empty", "other-port", "revoked", "malformed", "absent", "missing"}
 
 // verdict by construction of the file
 func (k khKind) verdict() string {
@@ -754,11 +757,18 @@ func khLine(hostport string, key ssh.PublicKey) string {
 	return knownhosts.Line([]string{hostport}, key)
 }
 
-// writeKH creates the known-hosts file of the given kind for 127.0.0.1:port; "" for khAbsent.
+// writeKH creates a known-hosts file of the given kind under a fresh name; "" for khAbsent.
 func (e *c14env) writeKH(kind khKind, port int, hostKey ssh.PublicKey) string {
 	if kind == khAbsent {
 		return ""
 	}
+	p := e.tmp("kh")
+	os.WriteFile(p, e.khBytes(kind, port, hostKey), 0o600)
+	return p
+}
+
+// khBytes is the content of a known-hosts file of the given kind for 127.0.0.1:port.
+func (e *c14env) khBytes(kind khKind, port int, hostKey ssh.PublicKey) []byte {
 	addr := fmt.Sprintf("127.0.0.1:%d", port)
 	var b bytes.Buffer
 	switch kind {
@@ -779,9 +789,7 @@ func (e *c14env) writeKH(kind khKind, port int, hostKey ssh.PublicKey) string {
 	case khMalformed:
 		b.WriteString("this-line has-no valid-key\n")
 	}
-	p := e.tmp("kh")
-	os.WriteFile(p, b.Bytes(), 0o600)
-	return p
+	return b.Bytes()
 }
 
 type stdCase struct {
@@ -918,190 +926,335 @@ func canonAuth(s string) string {
 	return strings.Join(parts, ";")
 }
 
+// stdRun is one connection attempt of the standard transport and what both ends saw of it.
+type stdRun struct {
+	k       *stdCase
+	line    string // replayable case line
+	what    string // "" or "step i/n of history …"
+	sig     string // signature infix: "" or "history-"
+	lean    string // the 14 protocol fields of this connection
+	khNow   khKind // what the known-hosts path holds when the connection is opened
+	openErr error
+	newErr  error
+	o       srvObs
+	keyPath string
+}
+
+// stdOpen builds a fresh driver for k against srv with the known-hosts path khPath ("" = none) and
+// opens / closes its transport once. prep, when set, runs between NewDriver and Open.
+func stdOpen(e *c14env, k *stdCase, srv *sim.SSHServer, khPath string, khNow khKind, prep func()) *stdRun {
+	r := &stdRun{k: k, khNow: khNow}
+	keyPath, keyLoads := k.keyPath(e)
+	r.keyPath = keyPath
+	opts := []util.Option{options.WithTransportType(transport.StandardTransport), options.WithPort(srv.Port),
+		options.WithTimeoutSocket(10 * time.Second)}
+	if k.user != "" {
+		opts = append(opts, options.WithAuthUsername(k.user))
+	}
+	pw := ""
+	if k.usePw {
+		pw = k.pw
+		opts = append(opts, options.WithAuthPassword(pw))
+	}
+	if !k.strict {
+		opts = append(opts, options.WithAuthNoStrictKey())
+	}
+	if khPath != "" {
+		opts = append(opts, options.WithSSHKnownHostsFile(khPath))
+	}
+	if keyPath != "" {
+		opts = append(opts, options.WithAuthPrivateKey(keyPath, ""))
+	}
+	var tr *transport.Transport
+	if k.netconf {
+		d, err := netconf.NewDriver("127.0.0.1", opts...)
+		if err != nil {
+			r.newErr = err
+		} else {
+			tr = d.Transport
+		}
+	} else {
+		d, err := generic.NewDriver("127.0.0.1", opts...)
+		if err != nil {
+			r.newErr = err
+		} else {
+			tr = d.Transport
+		}
+	}
+	if prep != nil {
+		prep()
+	}
+	if tr != nil {
+		r.openErr = tr.Open()
+		if r.openErr == nil {
+			// let the session requests arrive before looking
+			deadline := time.Now().Add(5 * time.Second)
+			for time.Now().Before(deadline) {
+				if o := observe(srv); len(o.reqs) >= 2 || (k.netconf && len(o.reqs) >= 1) {
+					break
+				}
+				time.Sleep(time.Millisecond)
+			}
+		}
+		tr.Close(true)
+	}
+	khLoads := "1"
+	switch khNow {
+	case khMalformed:
+		khLoads = "0"
+	case khMissing:
+		khLoads = "missing"
+	}
+	r.lean = fmt.Sprintf("%s %d %s %s %d %s %s %s %s %s %s %s %s %s",
+		hexs("127.0.0.1"), srv.Port, hexs(k.user), hexs(pw), int64(10*time.Second), b01(k.strict), hexs(keyPath), hexs(khPath),
+		khLoads, b01(keyLoads), khNow.verdict(), b01(k.accKey), b01(k.accPw), b01(k.accKbd))
+	return r
+}
+
+// evalStd judges one connection: the property's oracle on the implementation (the content of the
+// known-hosts path AT THE TIME of the connection decides) and the correspondence with the model.
+func evalStd(c *ctx, e *c14env, r *stdRun, model string) {
+	res := c.res
+	k, o, line := r.k, r.o, r.line
+	if model == "bad-op" {
+		res.Fail("machinery", line, "driver rejected: "+r.lean, "c14-bad-op")
+		return
+	}
+	if r.newErr != nil {
+		res.Fail("correspondence", line, fmt.Sprintf("%sNewDriver failed: %v", r.what, r.newErr), "c14-std-"+r.sig+"newdriver-error")
+		return
+	}
+	// observed outcome, from both ends
+	var got string
+	var ke *knownhosts.KeyError
+	var re *knownhosts.RevokedError
+	switch {
+	case r.openErr == nil:
+		got = "est"
+	case errors.Is(r.openErr, util.ErrBadOption):
+		got = "cfgerr:badoption"
+	case errors.As(r.openErr, &ke) || errors.As(r.openErr, &re):
+		got = "hostkey"
+	case strings.Contains(r.openErr.Error(), "unable to authenticate"):
+		got = "authfail"
+	case o.tcp == 0:
+		got = "cfgerr:file"
+	default:
+		got = "other:" + r.openErr.Error()
+	}
+	gotAtt := e.showEvents(o.events)
+	if got == "est" {
+		last := ""
+		if n := len(o.events); n > 0 {
+			last = e.showEvents(o.events[n-1:])
+		}
+		got = "est:" + hexs(o.estUser) + ":" + last
+	}
+	res.Sample(map[string]any{"case": line, "what": r.what, "strict": k.strict, "known_hosts": khNames[r.khNow], "outcome": got, "offered": gotAtt, "user_seen": o.estUser})
+	if c14Debug {
+		fmt.Fprintf(os.Stderr, "%s %sstrict=%v kh=%s -> %s offered=%s err=%v | model %s\n", line, r.what, k.strict, khNames[r.khNow], got, gotAtt, r.openErr, model)
+	}
+	// --- oracle (the property itself, on the implementation)
+	hostKeyOK := r.khNow.verdict() == "match" && r.khNow != khAbsent && r.khNow != khMalformed && r.khNow != khMissing
+	if k.strict && !hostKeyOK {
+		if r.openErr == nil || o.handshakes > 0 {
+			res.Fail("oracle", line, fmt.Sprintf("%sstrict host-key checking, known-hosts=%s, yet the connection was established (err=%v, server handshakes=%d)", r.what, khNames[r.khNow], r.openErr, o.handshakes), "c14-std-"+r.sig+"established-without-matching-host-key")
+		}
+		if len(o.events) > 0 {
+			res.Fail("oracle", line, fmt.Sprintf("%scredentials %s offered to a server whose host key was not accepted (known-hosts=%s)", r.what, gotAtt, khNames[r.khNow]), "c14-std-"+r.sig+"credentials-before-host-key")
+		}
+	}
+	if !k.strict && got == "hostkey" {
+		res.Fail("oracle", line, r.what+"strict checking disabled, yet Open failed on the host key: "+r.openErr.Error(), "c14-std-"+r.sig+"hostkey-checked-when-disabled")
+	}
+	if r.openErr == nil {
+		if o.estUser != k.user {
+			res.Fail("oracle", line, fmt.Sprintf("%sserver saw user %q, configured %q", r.what, o.estUser, k.user), "c14-std-"+r.sig+"wrong-user")
+		}
+	}
+	for _, ev := range o.events {
+		okCred := (ev.Method == "publickey" && r.keyPath != "" && bytes.Equal(ev.Cred, e.keyPub.Marshal())) ||
+			(ev.Method != "publickey" && k.usePw && string(ev.Cred) == k.pw)
+		if !okCred || ev.User != k.user {
+			res.Fail("oracle", line, fmt.Sprintf("%sserver was offered %s %q for user %q; configured user=%q key=%q password-set=%v", r.what, ev.Method, ev.Cred, ev.User, k.user, r.keyPath, k.usePw), "c14-std-"+r.sig+"unconfigured-credential")
+		}
+	}
+	// --- correspondence with the model
+	f := strings.Fields(model)
+	var wantOut, wantAtt string
+	if f[0] == "err" && len(f) >= 4 {
+		wantOut, wantAtt = f[2], f[3]
+	} else if len(f) >= 7 {
+		wantOut, wantAtt = f[5], f[6]
+	} else {
+		res.Fail("machinery", line, "short answer "+model, "c14-short-answer")
+		return
+	}
+	if strings.HasPrefix(wantOut, "cfgerr:") && wantOut != "cfgerr:badoption" {
+		wantOut = "cfgerr:file"
+	}
+	if strings.HasPrefix(wantOut, "est:") {
+		p := strings.SplitN(wantOut, ":", 3)
+		wantOut = "est:" + p[1] + ":" + canonAuth(p[2])
+	}
+	wantAtt = canonAuth(wantAtt)
+	if got != wantOut || gotAtt != wantAtt {
+		res.Fail("correspondence", line, fmt.Sprintf("%sstandard transport: impl outcome=%s offered=%s; model outcome=%s offered=%s (%s)", r.what, got, gotAtt, wantOut, wantAtt, r.lean), "c14-std-"+r.sig+"outcome-differs")
+	}
+	if strings.HasPrefix(wantOut, "cfgerr") && o.tcp != 0 {
+		res.Fail("correspondence", line, r.what+"model: refused before dialling; impl: server saw a TCP connection", "c14-std-"+r.sig+"dialled")
+	}
+	if strings.HasPrefix(got, "est") {
+		want := []string{"pty-req", "shell"}
+		if k.netconf {
+			want = []string{"subsystem:netconf"}
+		}
+		if strings.Join(o.reqs, ",") != strings.Join(want, ",") {
+			res.Fail("correspondence", line, fmt.Sprintf("%ssession requests %v, expected %v", r.what, o.reqs, want), "c14-std-"+r.sig+"session-requests")
+		}
+	}
+}
+
 func c14Std(c *ctx, e *c14env, cells []int, seeds []uint64) {
 	res := c.res
-	type run struct {
-		k       *stdCase
-		line    string
-		lean    string
-		openErr error
-		newErr  error
-		o       srvObs
-		khLoads bool
-		keyPath string
-	}
-	runs := make([]*run, len(seeds))
+	runs := make([]*stdRun, len(seeds))
 	lines := make([]string, len(seeds))
 	for i, seed := range seeds {
 		k := genStd(seed, cells[i])
-		r := &run{k: k, line: fmt.Sprintf("std %d %d", cells[i], seed)}
-		runs[i] = r
 		srv := sim.NewSSHServer(rngReader{vlib.NewRng(seed ^ 0x5eed)}, k.accept(e))
 		srv.Questions = k.nq
 		khPath := e.writeKH(k.kh, srv.Port, srv.HostKey.PublicKey())
-		r.khLoads = k.kh != khMalformed
-		keyPath, keyLoads := k.keyPath(e)
-		r.keyPath = keyPath
-		opts := []util.Option{options.WithTransportType(transport.StandardTransport), options.WithPort(srv.Port),
-			options.WithTimeoutSocket(10 * time.Second)}
-		if k.user != "" {
-			opts = append(opts, options.WithAuthUsername(k.user))
-		}
-		pw := ""
-		if k.usePw {
-			pw = k.pw
-			opts = append(opts, options.WithAuthPassword(pw))
-		}
-		if !k.strict {
-			opts = append(opts, options.WithAuthNoStrictKey())
-		}
-		if khPath != "" {
-			opts = append(opts, options.WithSSHKnownHostsFile(khPath))
-		}
-		if keyPath != "" {
-			opts = append(opts, options.WithAuthPrivateKey(keyPath, ""))
-		}
-		var tr *transport.Transport
-		if k.netconf {
-			d, err := netconf.NewDriver("127.0.0.1", opts...)
-			if err != nil {
-				r.newErr = err
-			} else {
-				tr = d.Transport
-			}
-		} else {
-			d, err := generic.NewDriver("127.0.0.1", opts...)
-			if err != nil {
-				r.newErr = err
-			} else {
-				tr = d.Transport
-			}
-		}
-		if tr != nil {
-			r.openErr = tr.Open()
-			if r.openErr == nil {
-				// let the session requests arrive before looking
-				deadline := time.Now().Add(5 * time.Second)
-				for time.Now().Before(deadline) {
-					if o := observe(srv); len(o.reqs) >= 2 || (k.netconf && len(o.reqs) >= 1) {
-						break
-					}
-					time.Sleep(time.Millisecond)
-				}
-			}
-			tr.Close(true)
-		}
+		r := stdOpen(e, k, srv, khPath, k.kh, nil)
+		r.line = fmt.Sprintf("std %d %d", cells[i], seed)
 		srv.Close()
 		r.o = observe(srv)
-		lines[i] = fmt.Sprintf("c14 std %s %d %s %s %d %s %s %s %s %s %s %s %s %s",
-			hexs("127.0.0.1"), srv.Port, hexs(k.user), hexs(pw), int64(10*time.Second), b01(k.strict), hexs(keyPath), hexs(khPath),
-			b01(r.khLoads), b01(keyLoads), k.kh.verdict(), b01(k.accKey), b01(k.accPw), b01(k.accKbd))
-		r.lean = lines[i]
+		runs[i] = r
+		lines[i] = "c14 std " + r.lean
 	}
 	model := c.ask(lines)
 	for i, r := range runs {
-		k, o, line := r.k, r.o, r.line
 		res.Count("std")
-		res.Count(fmt.Sprintf("std strict=%v kh=%s", k.strict, khNames[k.kh]))
-		if model[i] == "bad-op" {
-			res.Fail("machinery", line, "driver rejected: "+r.lean, "c14-bad-op")
+		res.Count(fmt.Sprintf("std strict=%v kh=%s", r.k.strict, khNames[r.k.kh]))
+		if model[i] != "bad-op" {
+			res.InDomain++
+			res.Case(r.line, true)
+		}
+		evalStd(c, e, r, model[i])
+	}
+}
+
+/* ------------------------------------------------------------------ hist: several connections, one process, one known-hosts path */
+
+// histScenarios: what the SAME known-hosts path holds at each successive connection. Every
+// connection comes from a fresh driver; the transport must decide each one on the file as it is then.
+var histScenarios = [][]khKind{
+	{khMatch, khMismatch},
+	{khMatch, khEmpty},
+	{khMatch, khRevoked},
+	{khMismatch, khMatch},
+	{khMissing, khMatch},
+	{khMatch, khMismatch, khMatch},
+	{khEmpty, khMatch, khRevoked},
+	{khMatch, khMalformed},
+	{khMatchHashed, khOtherPort, khMatchAmongOthers},
+	{khMatch, khMissing, khMismatch},
+	{khMatch, khMatch, khEmpty},
+}
+
+func c14Hist(c *ctx, e *c14env, seeds []uint64) {
+	res := c.res
+	type hist struct {
+		line  string
+		steps []*stdRun
+	}
+	var hs []*hist
+	var lines []string
+	for _, seed := range seeds {
+		rg := vlib.NewRng(seed ^ 0x4157)
+		k := genStd(seed, -1)
+		k.strict = rg.Chance(6, 7)
+		k.kh = khMatch
+		k.usePw = true
+		if k.keyKind >= 2 {
+			k.keyKind = 1
+		}
+		k.accKey, k.accPw, k.accKbd, k.nq, k.netconf = true, true, true, 1, false
+		var sc []khKind
+		if rg.Chance(1, 5) {
+			pool := []khKind{khMatch, khMatchHashed, khMismatch, khEmpty, khRevoked, khMalformed, khOtherPort, khMissing}
+			for n := rg.Range(2, 3); n > 0; n-- {
+				sc = append(sc, pool[rg.Intn(len(pool))])
+			}
+		} else {
+			sc = histScenarios[rg.Intn(len(histScenarios))]
+		}
+		names := make([]string, len(sc))
+		for i, kk := range sc {
+			names[i] = khNames[kk]
+		}
+		srv := sim.NewSSHServer(rngReader{vlib.NewRng(seed ^ 0x5eed)}, k.accept(e))
+		path := e.tmp("kh-history")
+		h := &hist{line: fmt.Sprintf("hist %d", seed)}
+		var fields []string
+		for i, now := range sc {
+			srv.Reset()
+			// (re)write the path: in place, or as a new file renamed over it
+			content := e.khBytes(now, srv.Port, srv.HostKey.PublicKey())
+			if rg.Bool() {
+				os.WriteFile(path, content, 0o600)
+			} else {
+				os.WriteFile(path+".new", content, 0o600)
+				os.Rename(path+".new", path)
+			}
+			var prep func()
+			if now == khMissing {
+				// the option insists on an existing file; it disappears before the connection is opened
+				prep = func() { os.Remove(path) }
+			}
+			r := stdOpen(e, k, srv, path, now, prep)
+			r.line = h.line
+			r.sig = "history-"
+			r.what = fmt.Sprintf("connection %d of %d, one process, fresh driver each, same known-hosts path holding %s in turn: ", i+1, len(sc), strings.Join(names, " -> "))
+			r.o = observe(srv)
+			h.steps = append(h.steps, r)
+			fields = append(fields, r.lean)
+		}
+		srv.Close()
+		os.Remove(path)
+		hs = append(hs, h)
+		lines = append(lines, "c14 hist "+strings.Join(fields, " "))
+		res.Count("hist " + strings.Join(names, "->"))
+	}
+	model := c.ask(lines)
+	for i, h := range hs {
+		res.Count("hist")
+		parts := strings.Split(model[i], " ;; ")
+		if model[i] == "bad-op" || len(parts) != len(h.steps) {
+			res.Fail("machinery", h.line, "driver rejected history: "+lines[i]+" -> "+model[i], "c14-bad-op")
 			continue
 		}
 		res.InDomain++
-		res.Case(line, true)
-		if r.newErr != nil {
-			res.Fail("correspondence", line, fmt.Sprintf("NewDriver failed: %v", r.newErr), "c14-std-newdriver-error")
-			continue
-		}
-		// observed outcome, from both ends
-		var got string
-		var ke *knownhosts.KeyError
-		var re *knownhosts.RevokedError
-		switch {
-		case r.openErr == nil:
-			got = "est"
-		case errors.Is(r.openErr, util.ErrBadOption):
-			got = "cfgerr:badoption"
-		case errors.As(r.openErr, &ke) || errors.As(r.openErr, &re):
-			got = "hostkey"
-		case strings.Contains(r.openErr.Error(), "unable to authenticate"):
-			got = "authfail"
-		case o.tcp == 0:
-			got = "cfgerr:file"
-		default:
-			got = "other:" + r.openErr.Error()
-		}
-		gotAtt := e.showEvents(o.events)
-		if got == "est" {
-			last := ""
-			if n := len(o.events); n > 0 {
-				last = e.showEvents(o.events[n-1:])
+		res.Case(h.line, true)
+		for j, r := range h.steps {
+			res.Count("hist-connection")
+			res.Count(fmt.Sprintf("std strict=%v kh=%s", r.k.strict, khNames[r.khNow]))
+			ans := parts[j]
+			// the history function's outcome for connection j must be the connection's own (standard_no_history)
+			if idx := strings.LastIndex(ans, " hist="); idx >= 0 {
+				own := strings.Fields(ans[:idx])
+				hv := ans[idx+6:]
+				ownOut := ""
+				if len(own) >= 4 && own[0] == "err" {
+					ownOut = own[2]
+				} else if len(own) >= 7 {
+					ownOut = own[5]
+				}
+				if hv != ownOut {
+					res.Fail("machinery", h.line, "standardHistory disagrees with standardConn: "+ans, "c14-model-history")
+				}
+				ans = ans[:idx]
 			}
-			got = "est:" + hexs(o.estUser) + ":" + last
-		}
-		res.Sample(map[string]any{"case": line, "strict": k.strict, "known_hosts": khNames[k.kh], "outcome": got, "offered": gotAtt, "user_seen": o.estUser})
-		if c14Debug {
-			fmt.Fprintf(os.Stderr, "%s strict=%v kh=%s -> %s offered=%s err=%v | model %s\n", line, k.strict, khNames[k.kh], got, gotAtt, r.openErr, model[i])
-		}
-		// --- oracle (the property itself, on the implementation)
-		verdict := k.kh.verdict()
-		hostKeyOK := k.kh != khAbsent && k.kh != khMalformed && verdict == "match"
-		if k.strict && !hostKeyOK {
-			if r.openErr == nil || o.handshakes > 0 {
-				res.Fail("oracle", line, fmt.Sprintf("strict host-key checking, known-hosts=%s, yet the connection was established (err=%v, server handshakes=%d)", khNames[k.kh], r.openErr, o.handshakes), "c14-std-established-without-matching-host-key")
-			}
-			if len(o.events) > 0 {
-				res.Fail("oracle", line, fmt.Sprintf("credentials %s offered to a server whose host key was not accepted (known-hosts=%s)", gotAtt, khNames[k.kh]), "c14-std-credentials-before-host-key")
-			}
-		}
-		if !k.strict && got == "hostkey" {
-			res.Fail("oracle", line, "strict checking disabled, yet Open failed on the host key: "+r.openErr.Error(), "c14-std-hostkey-checked-when-disabled")
-		}
-		if r.openErr == nil {
-			if o.estUser != k.user {
-				res.Fail("oracle", line, fmt.Sprintf("server saw user %q, configured %q", o.estUser, k.user), "c14-std-wrong-user")
-			}
-		}
-		for _, ev := range o.events {
-			okCred := (ev.Method == "publickey" && r.keyPath != "" && bytes.Equal(ev.Cred, e.keyPub.Marshal())) ||
-				(ev.Method != "publickey" && k.usePw && string(ev.Cred) == k.pw)
-			if !okCred || ev.User != k.user {
-				res.Fail("oracle", line, fmt.Sprintf("server was offered %s %q for user %q; configured user=%q key=%q password-set=%v", ev.Method, ev.Cred, ev.User, k.user, r.keyPath, k.usePw), "c14-std-unconfigured-credential")
-			}
-		}
-		// --- correspondence with the model
-		f := strings.Fields(model[i])
-		var wantOut, wantAtt string
-		if f[0] == "err" && len(f) >= 4 {
-			wantOut, wantAtt = f[2], f[3]
-		} else if len(f) >= 7 {
-			wantOut, wantAtt = f[5], f[6]
-		} else {
-			res.Fail("machinery", line, "short answer "+model[i], "c14-short-answer")
-			continue
-		}
-		if strings.HasPrefix(wantOut, "cfgerr:") && wantOut != "cfgerr:badoption" {
-			wantOut = "cfgerr:file"
-		}
-		if strings.HasPrefix(wantOut, "est:") {
-			p := strings.SplitN(wantOut, ":", 3)
-			wantOut = "est:" + p[1] + ":" + canonAuth(p[2])
-		}
-		wantAtt = canonAuth(wantAtt)
-		if got != wantOut || gotAtt != wantAtt {
-			res.Fail("correspondence", line, fmt.Sprintf("standard transport: impl outcome=%s offered=%s; model outcome=%s offered=%s (%s)", got, gotAtt, wantOut, wantAtt, r.lean), "c14-std-outcome-differs")
-		}
-		if strings.HasPrefix(wantOut, "cfgerr") && o.tcp != 0 {
-			res.Fail("correspondence", line, "model: refused before dialling; impl: server saw a TCP connection", "c14-std-dialled")
-		}
-		if strings.HasPrefix(got, "est") {
-			want := []string{"pty-req", "shell"}
-			if k.netconf {
-				want = []string{"subsystem:netconf"}
-			}
-			if strings.Join(o.reqs, ",") != strings.Join(want, ",") {
-				res.Fail("correspondence", line, fmt.Sprintf("session requests %v, expected %v", o.reqs, want), "c14-std-session-requests")
-			}
+			evalStd(c, e, r, ans)
 		}
 	}
 }
@@ -1272,7 +1425,7 @@ func c14Real(c *ctx, e *c14env, cells []int, seeds []uint64) {
 
 func runC14(c *ctx) {
 	res := c.res
-	res.Rule = "sys: generated configurations (hosts incl. option-like/odd bytes, ports incl. out of range, users, passwords with/without marker bytes, socket timeouts incl. sub-second/negative, strict on/off, known-hosts/config/key files incl. odd paths and unusable keys, passphrase, 0-3 extra-arg options, argv override, NETCONF, shuffled option order) through generic/netconf NewDriver + Transport.Open with the stand-in ssh; std/real: {strict,not} x 9 known-hosts file kinds x {password,key,both,none,bad key} x server acceptance x users against an in-process SSH server with a fresh host key. non-trivial = sys case with a user/known-hosts/key/extra args, every std/real case; distinct by case seed"
+	res.Rule = "sys: generated configurations (hosts incl. option-like/odd bytes, ports incl. out of range, users, passwords with/without marker bytes, socket timeouts incl. sub-second/negative, strict on/off, known-hosts/config/key files incl. odd paths and unusable keys, passphrase, 0-3 extra-arg options, argv override, NETCONF, shuffled option order) through generic/netconf NewDriver + Transport.Open with the stand-in ssh; std/real: {strict,not} x 9 known-hosts file kinds x {password,key,both,none,bad key} x server acceptance x users against an in-process SSH server with a fresh host key; hist: 2-3 successive connections in one process (fresh driver each) through the SAME known-hosts path whose content is rewritten in between (match->mismatch, match->empty, match->revoked, mismatch->match, missing->match, ...), judged per connection on the content at that time. non-trivial = sys case with a user/known-hosts/key/extra args, every std/real case; distinct by case seed"
 	for _, v := range []string{"SSH_AUTH_SOCK", "SSH_ASKPASS", "DISPLAY", "VERIF_C14_ARGV"} {
 		os.Unsetenv(v)
 	}
@@ -1297,6 +1450,8 @@ func runC14(c *ctx) {
 			c14Internal(c, e, []uint64{u(1)})
 		case len(f) == 3 && f[0] == "std":
 			c14Std(c, e, []int{n(1)}, []uint64{u(2)})
+		case len(f) == 2 && f[0] == "hist":
+			c14Hist(c, e, []uint64{u(1)})
 		case len(f) == 3 && f[0] == "real":
 			c14Real(c, e, []int{n(1)}, []uint64{u(2)})
 		case f[0] == "default":
@@ -1330,6 +1485,8 @@ func runC14(c *ctx) {
 		cells = append(cells, -1)
 	}
 	c14Std(c, e, cells, seeds(len(cells)))
+	// histories: 2-3 connections of one process through the same known-hosts path whose content changes
+	c14Hist(c, e, seeds(c.n(60, 1500)))
 	// real ssh: the base matrix once (thorough) or a third of it plus random cells (quick)
 	cells = nil
 	if c.thorough() {
